@@ -689,4 +689,40 @@ theorem exec_spec_go : ∀ (post pre : List Op) (busy : List (Nat × Name × Nat
     rw [ih]
 
 
+/-! ### the runner's consumer: history lemmas -/
+
+theorem foldl_epochStep_noTouch (n : Name) : ∀ (mid acc : List Op), (∀ o ∈ mid, touches n o = false) →
+    mid.foldl (epochStep n) (some acc) = some (acc ++ mid)
+  | [], acc, _ => by simp
+  | o :: mid, acc, h => by
+    have ho : touches n o = false := h o (by simp)
+    have ih := foldl_epochStep_noTouch n mid (acc ++ [o]) (fun x hx => h x (by simp [hx]))
+    simp only [List.foldl_cons, epochStep, ho]
+    simpa using ih
+
+theorem epochMid_init_mid (n : Name) (pre mid : List Op) (h : ∀ o ∈ mid, touches n o = false) :
+    epochMid n (pre ++ [.init n] ++ mid) = some mid := by
+  unfold epochMid
+  rw [List.foldl_append, List.foldl_append]
+  have : List.foldl (epochStep n) (List.foldl (epochStep n) none pre) [Op.init n] = some [] := by
+    simp [epochStep, touches]
+  rw [this, foldl_epochStep_noTouch n mid [] h]
+  simp
+
+theorem sameEpoch_noTouch (n : Name) : ∀ (post : List Op), (∀ o ∈ post, touches n o = false) → sameEpoch n post = post
+  | [], _ => by simp [sameEpoch]
+  | o :: post, h => by
+    have ho : touches n o = false := h o (by simp)
+    have ih := sameEpoch_noTouch n post (fun x hx => h x (by simp [hx]))
+    unfold sameEpoch at ih ⊢
+    simp [List.takeWhile_cons, ho, ih]
+
+theorem firstComplete_append (n : Name) (a b : List Op) :
+    firstComplete n (a ++ b) = match firstComplete n a with | some t => some t | none => firstComplete n b := by
+  unfold firstComplete
+  rw [List.filterMap_append]
+  cases h : List.filterMap (completesOn n) a with
+  | nil => simp
+  | cons x t => simp
+
 end ConfModel.TracerSlots
